@@ -105,6 +105,7 @@ type RunConfig struct {
 	WAdvance  int    `json:"w_advance"`      // weight of letting time pass
 	WSettle   int    `json:"w_settle"`       // weight of a settle-and-check action
 	WCrash    int    `json:"w_crash,omitempty"`
+	StoreOrder uint64 `json:"store_order,omitempty"` // the order in which jobs appear in a saved snapshot is Go map order in the runner; the harness store re-orders every snapshot by this seed instead, so that what a restart loads - order included - is a function of the scenario
 	SlowPoint string `json:"slow_point,omitempty"` // swarm: goroutines parked at this hook point are released 8 times less often (a stalled step widens the windows around it)
 	PFail     int    `json:"p_fail,omitempty"`      // per mille: a task fails
 	PExit0    int    `json:"p_exit0,omitempty"`     // per mille: a cancelled task still exits 0
@@ -564,6 +565,7 @@ func Generate(seed uint64, profile string, faults bool) *Scenario {
 	if g.p(400) {
 		cfg.SlowPoint = slowPoints[g.n(len(slowPoints))]
 	}
+	cfg.StoreOrder = g.r.Uint64() | 1
 	if faults {
 		cfg.PFail = g.oneOf(0, 100, 250)
 		cfg.TapeTasks = true
